@@ -48,7 +48,10 @@ def coerce(cls: Type[T], data: Any) -> T:
             raise bad_type(data, cls) from None
     elif cls is str:
         if isinstance(data, (int, float)) and not isinstance(data, bool):
-            return str(data)  # type: ignore
+            try:
+                return str(data)  # type: ignore
+            except ValueError:  # int exceeding the interpreter's str conversion limit
+                raise bad_type(data, cls) from None
         else:
             raise bad_type(data, cls)
     else:
